@@ -327,6 +327,127 @@ def _scale_seg(job):
     return bad, stats
 
 
+# ---------------------------------------------------------------------------------------------------------------------
+# Far-integer family ("S" / what = "iseg"): the same TLC patterns as INT64 curves TRANSLATED far from the origin (offsets 2^53 .. 2^62
+# on x and / or y, built from Python ints, so not representable in binary64; integer steps 1 .. 1000 between grid lines).  The distances
+# are translation invariant and the differences end-start / pt-start are exact in int64, so every returned value still equals the
+# pattern's exact Term (times the step).  A conversion of the raw coordinates to float before the differences collapses the samples.
+FAR_OFFSETS = (2 ** 53, 2 ** 53 + 1, 2 ** 55 + 12345, 1_700_000_000_000_000_000, 2 ** 60 + 1, 2 ** 61 + 2 ** 30 + 7, 9_000_000_000_000_000_000, 2 ** 62)
+FAR_STEPS = (1, 3, 100, 1000)
+FAR_NEAR = (0, -2, 7)             # the untranslated axis
+
+
+def _far_seg(job):
+    import kneeliverse.linear_fit as lf
+    import kneeliverse.knee_ranking as kr
+    b, n, k = job["behaviour"], int(job["n"]), int(job["step"])
+    ox, oy = int(job["offx"]), int(job["offy"])          # Python ints (recorded as decimal strings)
+    rng = np.random.default_rng([int(job["sseed"]), n, 53])
+    bad, stats = [], {"calls": 0, "values": 0}
+    keep = []
+
+    def guard(clause, fn):
+        try:
+            fn()
+        except AssertionError as ex:
+            bad.append((clause, ex.args[0] if ex.args else None))
+        except _Outcome as ex:
+            bad.append((clause, ex.args[0]))
+        except Exception as ex:
+            bad.append((clause, {"raised": repr(ex)[:300]}))
+
+    def call(name, fn, args, exp, nn, **kw):
+        got = _lib(fn, args, nn)
+        keep.append(got)
+        stats["calls"] += 1
+        stats["values"] += len(exp)
+        _vec_assert(name, got, exp, **kw)
+
+    I = lambda p: [ox + k * int(p[0]), oy + k * int(p[1])]
+    o64 = np.array([ox, oy], dtype=np.int64)
+    deg = b["a"] == b["b"]
+    m = len(b["pts"])
+    eseg_p = np.array([math.sqrt(_q(q)) * k for q in b["d2seg"]])
+    eperp_p = None if deg else np.array([math.sqrt(_q(q)) * k for q in b["perp2"]])
+    ea_p = np.array([math.sqrt(v) * k for v in b["d2a"]])
+    nz = [j for j in range(m) if (b["d2seg"][j][0] if deg else b["perp2"][j][0]) > 0]
+    idx = np.arange(m, dtype=np.int64) if job["shape"] == "pattern" else _shape_index(job["shape"], n, m, rng, nz)
+    n = len(idx)
+    pat = np.array([I(p) for p in b["pts"]], dtype=np.int64)
+    P = np.ascontiguousarray(pat[idx])
+    a, bb = np.array(I(b["a"]), dtype=np.int64), np.array(I(b["b"]), dtype=np.int64)
+    assert P.dtype == np.int64 and [int(v) for v in a.tolist()] == I(b["a"]) and [int(v) for v in pat[-1].tolist()] == I(b["pts"][-1])
+    eseg, ea = eseg_p[idx], ea_p[idx]
+    kw = {"pts": b["pts"], "idx": idx}
+    wide = np.zeros((2 * n, 4), dtype=np.int64)
+    wide[::2, ::2] = P
+    Pv = wide[::2, ::2]
+    tag = "[int64 + (%d, %d)]" % (ox, oy)
+
+    guard("degenerate-chord" if deg else "shortest-distance", lambda: call("shortest_distance_points" + tag, lf.shortest_distance_points, (P, a, bb), eseg, n, **kw))
+    guard("degenerate-chord" if deg else "shortest-distance", lambda: call("shortest_distance_points[strided view]" + tag, lf.shortest_distance_points, (Pv, a, bb), eseg, n, **kw))
+    guard("euclidean-distances", lambda: call("distances" + tag, kr.distances, (a, P), ea, n, **kw))
+    if not deg:
+        eperp = eperp_p[idx]
+        guard("perpendicular-distance", lambda: call("perpendicular_distance_points" + tag, lf.perpendicular_distance_points, (P, a, bb), eperp, n, **kw))
+        guard("perpendicular-distance", lambda: call("perpendicular_distance_points[strided view]" + tag, lf.perpendicular_distance_points, (Pv, a, bb), eperp, n, **kw))
+        arr = np.vstack([a[None, :], P, bb[None, :]])
+        e = np.concatenate(([0.0], eperp, [0.0]))
+        guard("perpendicular-distance", lambda: call("perpendicular_distance" + tag, lf.perpendicular_distance, (arr,), e, n + 2, first_row=1, **kw))
+        guard("perpendicular-subrange", lambda: call("perpendicular_distance_index(points[%d], 0, %d)%s" % (n + 2, n + 1, tag), lf.perpendicular_distance_index, (arr, 0, n + 1), e, n + 2,
+                                                     first_row=1, **kw))
+        for (L, c, R) in job["subs"]:
+            L, c, R = int(L), min(int(c), n), int(R)
+            junk = lambda cnt: o64 + k * rng.integers(-5, 9, (cnt, 2))
+            sub = np.vstack([junk(L), a[None, :], P[n - c:], bb[None, :], junk(R)])
+            assert sub.dtype == np.int64
+            es = np.concatenate(([0.0], eperp[n - c:], [0.0]))
+            guard("perpendicular-subrange",
+                  lambda: call("perpendicular_distance_index(points[%d], %d, %d)%s" % (len(sub), L, L + c + 1, tag), lf.perpendicular_distance_index, (sub, L, L + c + 1), es, len(sub),
+                               pts=b["pts"], idx=idx[n - c:], first_row=1))
+    return bad, stats
+
+
+def _far_jobs(ctx, nondeg, degen, sizes):
+    """pattern-size jobs (the TLC case itself, translated) for many chords + production sizes; its own generator: the draws of the
+    scale family stay what they were"""
+    import random
+    rng = random.Random(ctx.seed * 7919 + 1753)
+    quick = ctx.quick
+    jobs = []
+
+    def offsets(i):
+        mode = ("x", "y", "xy")[i % 3]
+        o1 = rng.choice((-1, 1)) * (FAR_OFFSETS[i % len(FAR_OFFSETS)] + (rng.randrange(0, 1 << 20) if FAR_OFFSETS[i % len(FAR_OFFSETS)] < 2 ** 62 else -rng.randrange(0, 1 << 20)))
+        o2 = rng.choice((-1, 1)) * (rng.choice(FAR_OFFSETS[:-1]) + rng.randrange(0, 1 << 20))
+        return mode, {"x": (o1, rng.choice(FAR_NEAR)), "y": (rng.choice(FAR_NEAR), o1), "xy": (o1, o2)}[mode]
+
+    def add(b, n, shape, i):
+        mode, (ox, oy) = offsets(i)
+        k = FAR_STEPS[(i // 3) % len(FAR_STEPS)] if i % 5 else rng.choice(FAR_STEPS)
+        subs = []
+        if b["a"] != b["b"]:
+            big = [c for c in (1000, 33000) if c <= max(1000, n)]
+            subs.append((rng.randrange(1, 8), n, rng.randrange(0, 4)))
+            subs.append((rng.choice(big) + rng.randrange(0, 777), rng.randrange(1, min(n, 300) + 1), rng.randrange(0, max(1, n))))
+            if n > 1000:
+                subs.append((rng.randrange(1, 3000), rng.randrange(n // 2, n + 1), rng.randrange(0, 3000)))
+        jobs.append({"kind": "S", "what": "iseg", "n": n, "behaviour": b, "shape": shape, "sseed": rng.randrange(1 << 30), "step": k, "axes": mode,
+                     "offx": str(ox), "offy": str(oy), "scale": float(k), "offset": [str(ox), str(oy)], "subs": subs})
+
+    i = rng.randrange(24)
+    for b in rng.sample(nondeg, 21 if quick else 60) + rng.sample(degen, 3 if quick else 8):
+        add(b, len(b["pts"]), "pattern", i)
+        i += 1
+    for si, n0 in enumerate(sizes):
+        chords = rng.sample(nondeg, 1 if quick else 3) + ([rng.choice(degen)] if (not quick or si % 4 == 0) else [])
+        for j, b in enumerate(chords):
+            for _ in range(1 if quick else 2):
+                add(b, n0 + 11 + j, SHAPES[i % 3], i)
+                i += 1
+    return jobs
+
+
 RANK_DTYPES = ("float64", "int64", "float32", "int32")
 
 
@@ -385,7 +506,7 @@ def _scale_rank(job):
 
 
 def _scale_job(job):
-    bad, stats = _scale_seg(job) if job["what"] == "seg" else _scale_rank(job)
+    bad, stats = _scale_seg(job) if job["what"] == "seg" else (_far_seg(job) if job["what"] == "iseg" else _scale_rank(job))
     ann = {"n": job["n"], "shape": job["shape"], "scale": job["scale"], "offset": job["offset"]}
     return [(clause, dict(detail, **ann) if isinstance(detail, dict) else detail) for clause, detail in bad], stats
 
@@ -447,6 +568,8 @@ def _run_scale(ctx, beh, small_ties, small_rejected):
             so = scales[(si + j) % len(scales)] if dt == "float64" else (1.0, 0.0)
             jobs.append({"kind": "S", "what": "rank", "n": n0 + j, "behaviour": rng.choice(rks), "shape": SHAPES[(si + j) % 3], "sseed": rng.randrange(1 << 30),
                          "scale": so[0], "offset": so[1], "dtype": dt})
+    far = _far_jobs(ctx, nondeg, degen, sizes)          # int64 curves translated by 2^53 .. 2^62 (drawn from a generator of their own)
+    jobs = jobs + far
     res = par.pmap(_scale_job, jobs, chunksize=1)
     seen = set()
     calls = values = 0
@@ -467,6 +590,18 @@ def _run_scale(ctx, beh, small_ties, small_rejected):
         raise Machinery("scale family: nothing was compared (%d calls, %d values)" % (calls, values))
     big = next(j for j in reversed(jobs) if j["what"] == "seg" and j["subs"])
     ctx.sample({"binding": "S", "job": {k: v for k, v in big.items() if k != "behaviour"}, "chord": [big["behaviour"]["a"], big["behaviour"]["b"]]}, limit=5)
+    fbig = next(j for j in reversed(far) if j["subs"])
+    ctx.sample({"binding": "S", "job": {k: v for k, v in fbig.items() if k != "behaviour"}, "chord": [fbig["behaviour"]["a"], fbig["behaviour"]["b"]]}, limit=6)
+    fres = [r for j, r in zip(jobs, res) if j["what"] == "iseg"]
+    if not far or sum(st["calls"] for _, st in fres) < 5 * len(far):
+        from harness.main import Machinery
+        raise Machinery("far-integer family: too few library calls were compared")
+    ctx.extra["far_int64"] = {"jobs": len(far), "pattern_size_jobs": sum(1 for j in far if j["shape"] == "pattern"), "sizes": sorted({j["n"] for j in far}),
+                              "library_calls": sum(st["calls"] for _, st in fres), "returned_values_compared": sum(st["values"] for _, st in fres),
+                              "axes": sorted({j["axes"] for j in far}), "steps": sorted({j["step"] for j in far}),
+                              "abs_offset_log2_range": [round(min(math.log2(max(abs(int(j["offx"])), abs(int(j["offy"])))) for j in far), 2),
+                                                        round(max(math.log2(max(abs(int(j["offx"])), abs(int(j["offy"])))) for j in far), 2)],
+                              "primitives": ["shortest_distance_points", "distances", "perpendicular_distance_points", "perpendicular_distance", "perpendicular_distance_index"]}
     # ---- rank on long vectors with ties: judged by TLC from a linear certificate
     tsz = ([n for n in sizes if n <= 6000] or [4097 + rng.randrange(0, 900)])[-1:] + [33000 + rng.randrange(0, 5000), 100003 + rng.randrange(0, 5)] if quick else \
         [sizes[0], sizes[len(sizes) // 4], 20000 + rng.randrange(0, 9), 33000 + rng.randrange(0, 5000), 66000 + rng.randrange(0, 3000), 50001, 100003 + rng.randrange(0, 5), sizes[-1]]
@@ -521,7 +656,11 @@ def run(ctx):
                 "consecutive lengths; tiled / random / long-run index sequences over the pattern; whole ranges, long and short sub-ranges deep inside longer "
                 "arrays; strided and int64 inputs; the check's scales / offsets): every returned value of shortest / perpendicular / sub-range / Euclidean "
                 "distance, rank (distinct) and distance-to-similarity equals the pattern's exact Term; rank with ties on vectors up to 10^5 (element types "
-                "narrower than the ranks included) is judged by TLC from a linear certificate (Trace_RankScale, proved equivalent to RankOk on short vectors)")
+                "narrower than the ranks included) is judged by TLC from a linear certificate (Trace_RankScale, proved equivalent to RankOk on short vectors). "
+                "Far-integer family: the same TLC cases (at pattern size and at the scale sizes) as int64 curves translated by +-2^53 .. 2^62 on x, on y or on both "
+                "(Python-int offsets not representable in binary64, integer steps 1 .. 1000; contiguous and strided; whole ranges and sub-ranges inside longer "
+                "arrays): shortest / Euclidean / perpendicular / sub-range distances still equal the pattern's exact Term times the step (translation invariance, "
+                "the coordinate differences are exact in int64)")
     ctx.assumptions += numeric.ASSUMPTIONS + [
         "square roots are applied last in binary64 to exact rational squares",
         "triangle_area is compared in absolute value (the library returns the signed area)",
@@ -582,6 +721,8 @@ def run(ctx):
     _run_scale(ctx, beh, cases, set(rej))
     ctx.assumptions.append("scale family: expected values are the TLC Terms of the small pattern, indexed by the position's pattern entry (no new oracle); "
                            "tolerances are those of the small cases (every returned value is point-wise, no long sums)")
+    ctx.assumptions.append("far-integer family: int64 only, |coordinate| < 2^63 and coordinate differences below 2^14, so the differences and the integer cross "
+                           "product of the unchanged code are exact; no tolerance depends on the coordinate magnitude")
     # ---- growth beyond C17: the knee-ranking heuristics built on these primitives (notes only)
     from harness import growth
     growth.safe(ctx, growth.ranking)
